@@ -83,6 +83,38 @@ def flat_equal(c1, c2):
     return len(c1) == len(c2) and all(same(np.ravel(x), np.ravel(y)) for x, y in zip(c1, c2))
 
 
+def callback_forms():
+    """(name, callable to hand to the sampler, function returning the (state, index) log) — callables that are valid
+    but unusual: falsy objects (empty list subclass, __bool__ False, __len__ 0), bound method, functools.partial"""
+    import functools
+
+    class RecorderList(list):
+        def __call__(self, s, i):
+            self.append((np.array(s, dtype=float, copy=True), int(i)))
+
+    class FalsyRecorder:
+        def __init__(self): self.log = []
+        def __bool__(self): return False
+        def __call__(self, s, i): self.log.append((np.array(s, dtype=float, copy=True), int(i)))
+
+    class LenZeroRecorder:
+        def __init__(self): self.log = []
+        def __len__(self): return 0
+        def __call__(self, s, i): self.log.append((np.array(s, dtype=float, copy=True), int(i)))
+
+    class Holder:
+        def __init__(self): self.log = []
+        def method(self, s, i): self.log.append((np.array(s, dtype=float, copy=True), int(i)))
+
+    def plain(log, s, i):
+        log.append((np.array(s, dtype=float, copy=True), int(i)))
+
+    r1, r2, r3, h, pl = RecorderList(), FalsyRecorder(), LenZeroRecorder(), Holder(), []
+    return [("empty-list-subclass", r1, lambda: list(r1)), ("bool-false-object", r2, lambda: r2.log),
+            ("len-zero-object", r3, lambda: r3.log), ("bound-method", h.method, lambda: h.log),
+            ("functools.partial", functools.partial(plain, pl), lambda: pl)]
+
+
 def clean_batch_dir(ckpath):
     d = os.path.join(os.path.dirname(ckpath), "batches")
     os.makedirs(d, exist_ok=True)
@@ -109,7 +141,9 @@ def x0_variants(dim):
     bits = [1 - (i % 2) for i in range(dim)]
     V = [("int64", np.array(ints, dtype=np.int64)), ("int32", np.array(ints, dtype=np.int32)),
          ("float32", np.array(ints, dtype=np.float32)), ("bool", np.array(bits, dtype=bool)),
-         ("list-of-int", list(ints))]
+         ("list-of-int", list(ints)),
+         ("int8", np.array(ints, dtype=np.int8)), ("uint8", np.array([abs(t) for t in ints], dtype=np.uint8)),
+         ("float16", np.array(ints, dtype=np.float16))]
     # G7: same float64 numbers, other array properties
     f = np.array(ints, dtype=np.float64)
     strided = np.empty(2 * dim); strided[::2] = f; strided[1::2] = 99.0
@@ -521,6 +555,25 @@ def _run(ctx, cuqi, M, thorough, rng, ckpath):
             impl = "C=" + cj(str(ids(c)) for c in res["chain"]) + ";E=" + cj(f"{ids(x)}@{i}" for x, i in res["events"])
             llines.append(f"leg {int(view)} {int(cbflag)} {N} {Nb} {x0id} {cj(map(str, outs_ids))}")
             lmeta.append((keyb, desc, impl))
+    # callbacks that are valid but unusual callables (falsy objects, bound methods, partials), with and without burn-in
+    for cfg in lcfgs:
+        for (N, Nb) in ([(11, 2)] if cfg["accepts"](11, 2) else []) + ([(4, 0)] if cfg["accepts"](4, 0) else []):
+            keyb = f"legacy:{cfg['name']}:{cfg['method']}"
+            for fname, fcb, flog in callback_forms():
+                desc = {"sampler": cfg["name"], "method": cfg["method"], "N": N, "Nb": Nb, "callback": fname}
+                ctx.case("legacy-callback-form", desc)
+                try:
+                    reseed(seed + 3)
+                    s_ = cfg["mk"](fcb)
+                    out = getattr(s_, cfg["method"])(N, Nb)
+                    lg = flog()
+                    arr = np.asarray(out.samples, dtype=float)
+                except Exception as e:
+                    ctx.fail(keyb + ":callback", desc, "callable callback accepted", repr(e)[:120], "a callable callback object makes the run raise")
+                    continue
+                if [i for _, i in lg] != list(range(1, N + Nb)):
+                    ctx.fail(keyb + ":callback", desc, f"one call per transition, indices 1..{N + Nb - 1}", [i for _, i in lg][:20],
+                             "a callable callback object is not invoked for every state produced by a transition")
     # G8/G5 on the stateless interface: the Samples returned by a first call are unchanged by a second call on the
     # same sampler object; `Nb` by keyword = positional
     for cfg in lcfgs:
@@ -553,7 +606,7 @@ def _run(ctx, cuqi, M, thorough, rng, ckpath):
         except Exception:
             continue
         for vname, given, as_float in x0_variants(d0):
-            if vname == "float32":
+            if vname in ("float32", "float16"):
                 continue
             desc = {"sampler": cfg["name"], "method": cfg["method"], "N": N, "Nb": Nb, "x0": vname, "values": [float(t) for t in as_float]}
             ctx.case("legacy-dtype", desc)
@@ -925,7 +978,7 @@ def oracle_stateful(ctx, cuqi, keyb, clsname, mk, N, K, tf, ckpath, seed, script
                      "returned samples are not the states visited (dtype of the start leaks into the sample array)", dsc)
             if not chains_equal(ch, visited):
                 fail("dtype-returned", "stored chain = states handed to the callback", f"first difference at {first_diff(ch, visited)}", "stored chain differs from the visited states", dsc)
-            if vname != "float32" and not chains_equal(ch, ref64[0]):
+            if vname not in ("float32", "float16") and not chains_equal(ch, ref64[0]):
                 # integers / booleans are exact in float64 and promote in every float operation: a difference means
                 # a state buffer allocated with the start's dtype (float32 legitimately computes in lower precision)
                 fail(f"dtype-chain:{vname}", "chain equal to the run started from the float64 version of the same numbers", f"first difference at {first_diff(ch, ref64[0])}",
@@ -945,6 +998,34 @@ def oracle_stateful(ctx, cuqi, keyb, clsname, mk, N, K, tf, ckpath, seed, script
                          "the array returned by get_samples() aliases the stored chain", dsc)
             except Exception:
                 pass
+
+    # ---- callbacks that are valid but unusual callables (falsy objects, bound methods, partials) are invoked like any other
+    if K == 0:
+        nfc = min(N, 3)
+        for fname, fcb, flog in callback_forms():
+            try:
+                s, scc = start(fcb)
+                s.sample(nfc)
+                lg = flog()
+                if [i for _, i in lg] != list(range(nfc)) or not chains_equal([x for x, _ in lg], chain(s)):
+                    fail("callback", f"callback invoked once per transition with (state, index), indices 0..{nfc - 1}", [i for _, i in lg],
+                         "a callable callback object is not invoked for every transition", {"callback": fname, "ops": [f"sample({nfc})"]})
+            except Exception as e:
+                fail("callback", "callable callback accepted", repr(e)[:120], "a callable callback object makes the run raise", {"callback": fname})
+        # burn-in / thinning of the returned Samples = the last states of the recorded chain, thinned
+        try:
+            smp = a.get_samples()
+            for (bn, bt) in [(0, 1), (1, 1), (1, 2), (2, 3), (0, 4), (N - 1, 1), (0, N)]:
+                want = ref[bn::bt]
+                gotc = cols(smp.burnthin(bn, bt).samples, len(want)) if len(want) else []
+                if len(want) and not flat_equal(gotc, want):
+                    fail("burnthin", f"the recorded states [{bn}::{bt}] ({len(want)} states)", f"{len(gotc)} states", "burnthin does not return the recorded states after the burn-in, thinned as requested",
+                         {"Nb": bn, "Nt": bt})
+                    break
+        except Exception as e:
+            msg = f"{keyb}: burnthin raised {repr(e)[:100]}"
+            if msg not in ctx.notes:
+                ctx.note(msg)
 
     # ---- G8 retained outputs: everything handed out (get_samples(), get_state(), get_history()) is snapshotted when
     #      returned and re-verified after all later calls; G5: `callback` re-assigned between calls, `initial_point`
@@ -1162,11 +1243,25 @@ def gibbs_checks(ctx, cuqi, M, L, T, thorough, seed):
     par_names = None
 
     # ---- HybridGibbs
+    def leaf_joint():
+        # an unobserved leaf x | s that is sampled exactly (Direct) and a hyper-parameter s
+        s_ = cuqi.distribution.Gaussian(1, 1, name="s")
+        x_ = cuqi.distribution.Gaussian(lambda s: s * np.ones(3), 0.5, geometry=3, name="x")
+        return cuqi.distribution.JointDistribution(x_, s_)
+
     def mk_h(kind):
         if kind == "rto-conjugate":
             strat = {'x': M.LinearRTO(maxit=15), 'd': M.Conjugate(), 'l': M.Conjugate()}
-        else:
+        elif kind == "mh-conjugate":
             strat = {'x': M.MH(scale=0.05), 'd': M.Conjugate(), 'l': M.Conjugate()}
+        elif kind == "direct-mh":
+            return M.HybridGibbs(leaf_joint(), {"s": M.MH(initial_point=np.array([0.5]), scale=0.5), "x": M.Direct(initial_point=np.zeros(3))})
+        elif kind == "direct-pcn":
+            return M.HybridGibbs(leaf_joint(), {"s": M.PCN(initial_point=np.array([0.5]), scale=0.5), "x": M.Direct(initial_point=np.zeros(3))},
+                                 num_sampling_steps={"s": 2, "x": 1})
+        elif kind == "direct-direct":
+            return M.HybridGibbs(leaf_joint(), {"s": M.MH(initial_point=np.array([0.5]), scale=0.5), "x": M.Direct()},
+                                 num_sampling_steps={"x": 2})
         return M.HybridGibbs(target, strat)
 
     def hchain(s):
@@ -1175,7 +1270,7 @@ def gibbs_checks(ctx, cuqi, M, L, T, thorough, seed):
         return [np.concatenate([np.asarray(s.samples[p][i], dtype=float).ravel() for p in names]) for i in range(n)]
 
     hlines, hmeta = [], []
-    for kind in ("rto-conjugate", "mh-conjugate"):
+    for kind in ("rto-conjugate", "mh-conjugate", "direct-mh", "direct-pcn", "direct-direct"):
         for K in (0, 3):
             keyb = f"gibbs:HybridGibbs:{kind}"
             desc = {"sampler": "HybridGibbs", "blocks": kind, "N": N, "warmup": K}
@@ -1209,6 +1304,34 @@ def gibbs_checks(ctx, cuqi, M, L, T, thorough, seed):
             ids = Ids()
             hlines.append(f"hg {('w%d@1/2;' % K) if K else ''}s{N} {','.join(str(ids(x)) for x in sweeps) or '_'}")
             hmeta.append((keyb, desc, "S=" + (",".join(str(ids(x)) for x in ref) or "_") + ";T=" + (",".join(f"{a_}/{b_}/{c_}" for a_, b_, c_ in tunes) or "_")))
+            # burn-in / thinning of the joint samples object: the documented way to discard the warm-up here
+            try:
+                js = a.get_samples()
+                for (bn, bt) in [(0, 1), (K, 1), (1, 2), (K, 2), (2, 3), (0, 4), (K + N - 1, 1), (0, K + N)]:
+                    for form in ("positional", "keyword"):
+                        out = js.burnthin(bn, bt) if form == "positional" else js.burnthin(Nb=bn, Nt=bt)
+                        for pn in a.par_names:
+                            want = np.asarray(js[pn].samples)[..., bn::bt]
+                            gotb = np.asarray(out[pn].samples)
+                            if gotb.shape != want.shape or not np.array_equal(gotb, want):
+                                ctx.fail(keyb + ":burnthin", {**desc, "Nb": bn, "Nt": bt, "form": form, "parameter": pn},
+                                         f"samples[:, {bn}::{bt}] ({want.shape[-1]} states)", f"{gotb.shape[-1] if gotb.ndim else 0} states",
+                                         "burnthin of the joint samples does not return the last states after the burn-in, thinned as requested")
+                                raise StopIteration
+            except StopIteration:
+                pass
+            except Exception as e:
+                ctx.note(f"{keyb}: joint burnthin raised {repr(e)[:120]}")
+            # repeated phases on one object: warmup -> sample -> warmup -> sample, each split vs unsplit sampling phase
+            try:
+                reseed(seed + 8); c1 = mk_h(kind); c1.warmup(2, tune_freq=0.5); c1.sample(3); c1.warmup(2, 0.5); c1.sample(3)
+                reseed(seed + 8); c2 = mk_h(kind); c2.warmup(2, tune_freq=0.5); c2.sample(1); c2.sample(2); c2.warmup(2, 0.5); c2.sample(2); c2.sample(1)
+                if not chains_equal(hchain(c1), hchain(c2)) or len(hchain(c1)) != 10:
+                    ctx.fail(keyb + ":split", {**desc, "ops": ["warmup(2)", "sample(1)", "sample(2)", "warmup(2)", "sample(2)", "sample(1)"]},
+                             "same chain as warmup(2); sample(3); warmup(2); sample(3) from the same stream", f"first difference at {first_diff(hchain(c1), hchain(c2))}",
+                             "Gibbs chain is not continuous across a split (repeated phases)")
+            except Exception as e:
+                ctx.note(f"{keyb}: repeated phases raised {repr(e)[:120]}")
             for p in range(N + 1):
                 reseed(seed + 7); b = mk_h(kind)
                 if K:
